@@ -247,6 +247,9 @@ void harness_read_until(void)
 	} else {
 		CHECK(unread_bytes(bs) == rpos, "C09.no_byte_lost_or_duplicated");
 		if (RTRACK < rpos) CHECK(rbyte_known && bs->read_ptr[RTRACK] == rbyte, "C09.unread_bytes_kept_in_order");
+		/* a complete line is never left waiting in the buffer, however the delimiter was split across reads */
+		if (r == BS_IO_WOULD_BLOCK || r == BS_IO_TOOMUCHDATA)
+			CHECK(jet_memmem(bs->read_ptr, unread_bytes(bs), delim, 2) == 0, "C09.complete_line_is_delivered_not_left_in_buffer");
 		if (r == BS_IO_TOOMUCHDATA) { CHECK(unread_bytes(bs) == M, "C09.too_much_data_only_when_buffer_full_without_delimiter"); REACH("line_too_long"); }
 	}
 	WITNESS_END();
